@@ -44,6 +44,8 @@ func runC16(p *Prog, r *Report) {
 	c16ErrorTable(p, r)
 	c16Wiring(p, r)
 	c16Paired(p, r)
+	// R4: the recording writer that oxy middlewares put between the forwarder and the client passes status, headers and bytes through unchanged (shared with C20.R3)
+	r.Borrow(p, c20Wrappers, map[string]string{"C20.R3": "C16.R4"}, func(o Ob) bool { return strings.Contains(o.Construct, "ProxyWriter") })
 }
 
 func c16ErrorTable(p *Prog, r *Report) {
